@@ -7,12 +7,12 @@
 
 pub mod common;
 #[cfg(kani)]
-mod h_input;
+pub mod h_input;
 #[cfg(kani)]
-mod h_lexer;
+pub mod h_lexer;
 #[cfg(kani)]
-mod h_builder;
+pub mod h_builder;
 #[cfg(kani)]
-mod h_forest;
+pub mod h_forest;
 #[cfg(kani)]
-mod h_error;
+pub mod h_error;
